@@ -167,9 +167,9 @@ func (s *Scanner) scanEscape(quote rune) bool {
 		s.advance()
 		return true
 	default:
-		// the backslash may be the last character of the source
+		// the backslash may be the last character of the source or of its line
 		endColumn, escaped := s.column+2, string(s.peekNext())
-		if s.peekNext() == eof {
+		if s.peekNext() == eof || s.peekNext() == '\n' {
 			endColumn, escaped = s.column+1, ""
 		}
 		s.err(
